@@ -1,6 +1,6 @@
 (* Family dispatch: the single entry point of the extracted model. *)
 From Coq Require Import ZArith List Bool.
-From UV Require Import Verdict PositJudge FixpntModel IntegerModel LnsModel CfloatModel ArealModel QuireModel SqrtModel Ops TextModel ElasticModel.
+From UV Require Import Verdict PositJudge FixpntModel IntegerModel LnsModel CfloatModel ArealModel QuireModel SqrtModel Ops TextModel ElasticModel EFTModel DDModel.
 Import ListNotations.
 Local Open Scope Z_scope.
 Definition FAM_posit : Z := 1.
@@ -13,8 +13,11 @@ Definition FAM_lns : Z := 5.
 Definition judge (fam : Z) (cfg : list Z) (op : Z) (args res : list Z) : verdict :=
   if Z.leb OP_hexfmt op && Z.leb op OP_decparse && Z.ltb fam 11 then judge_text fam cfg op args res else
   if Z.eqb fam FAM_posit then judge_posit cfg op args res else
-  if Z.eqb fam FAM_cfloat then (if Z.eqb op OP_sqrt then judge_sqrt_cfloat cfg args res else judge_cfloat cfg op args res) else
+  if Z.eqb fam FAM_cfloat then (if Z.eqb op OP_gen_two_sum then judge_gen_two_sum cfg args res else if Z.eqb op OP_sqrt then judge_sqrt_cfloat cfg args res else judge_cfloat cfg op args res) else
   if Z.eqb fam FAM_areal then judge_areal cfg op args res else
+  if Z.eqb fam 8 then judge_dd 2 106 cfg op args res else
+  if Z.eqb fam 9 then judge_dd 4 212 cfg op args res else
+  if Z.eqb fam 10 then judge_eft cfg op args res else
   if Z.eqb fam 11 then judge_einteger cfg op args res else
   if Z.eqb fam 12 then judge_edecimal cfg op args res else
   if Z.eqb fam 13 then judge_erational cfg op args res else
